@@ -3,6 +3,13 @@ import json, os
 ROOT = os.path.dirname(os.path.dirname(os.path.abspath(__file__)))
 
 CHECKS = {
+    "C01": dict(
+        category="exploration",
+        text="Reference-model runtime monitor: randomly generated well-scoped programs (typed AST owned by the harness, rendered per dialect) and a 1..40-parameter sweep are compiled by the real compiler exactly as the CLI does, the output is run by clvmr on generated argument trees, and every result is compared with an independent call-by-value reference interpreter that delegates operators to clvmr. Listed known findings are re-established by pinned witnesses through the real binaries.",
+        design_ref="DESIGN.md §3.1, §3.2, §4 C01",
+        note="trusts clvmr and the ~400-line reference interpreter; one-directional (only when the reference returns a value)",
+        technique="runtime monitoring against an executable reference model (random + systematic workloads)",
+    ),
     "C07": dict(
         category="exploration",
         text="Runtime monitor over the real conversion and hashing functions: round trip and three-way tree-hash agreement for every atom up to 2 (quick) / 3 (thorough) bytes and random hostile trees in both integer modes; all-pairs equality/hash consistency over pools of colliding spellings obtained from the real reader and the real converter.",
